@@ -452,6 +452,48 @@ def shape_helpers_vs_model(r, ncase):
     return len(expect), dis
 
 
+def adc_phase_reuse(r, epg, ncase):
+    """one `Adc(phase=<array over the first grid axis>)` object used in simulations over grids of different rank, one after
+    the other ((n, m), then (n,), then (n, m) again): every output has shape (nadc,) + getshape(seq) and equals, at every
+    grid index, the scalar simulation with the plain ADC times the defining phasor exp(i pi phase / 180)"""
+    dis, checked = [], 0
+    for _ in range(ncase):
+        n, m = int(r.integers(2, 5)), int(r.integers(2, 4))
+        phase = r.uniform(0, 360, size=n)
+        alpha = r.uniform(20, 150, size=n)
+        t2 = r.uniform(30, 120, size=(1, m))
+        adc = epg.Adc(phase=phase)
+        order = [(n, m), (n,), (n, m)] if r.random() < 0.7 else [(n,), (n, m), (n,)]
+
+        def seq(shape, a, T2):
+            return [epg.T(a, 30), epg.E(5, 1000, T2), epg.S(1), epg.T(2 * np.asarray(a), 0), epg.S(1), epg.E(5, 1000, T2), adc]
+
+        probs = []
+        try:
+            for k, shape in enumerate(order):
+                full = len(shape) == 2
+                out = np.asarray(epg.simulate(seq(shape, alpha, t2 if full else 80.0)))
+                if out.shape != (1,) + shape:
+                    probs.append((f"use #{k + 1} of the same Adc over a {shape} grid: output shape", out.shape, (1,) + shape))
+                    break
+                for idx in np.ndindex(*shape):
+                    a = float(alpha[idx[0]])
+                    T2 = float(t2[0, idx[1]]) if full else 80.0
+                    ref = epg.simulate([epg.T(a, 30), epg.E(5, 1000, T2), epg.S(1), epg.T(2 * a, 0), epg.S(1), epg.E(5, 1000, T2), epg.ADC])
+                    ref = np.ravel(ref)[0] * np.exp(1j * np.pi * phase[idx[0]] / 180)
+                    if abs(out[(0,) + idx] - ref) > 1e-10:
+                        probs.append((f"use #{k + 1} of the same Adc over a {shape} grid, index {idx}", complex(out[(0,) + idx]), complex(ref)))
+                        break
+                if probs:
+                    break
+        except Exception as exc:
+            probs.append(("raised", repr(exc)))
+        checked += 1
+        if probs:
+            dis.append({"kind": "c07-adc-reuse", "problems": probs, "input": {"n": n, "m": m, "order": order, "phase": phase.tolist()}})
+    return checked, dis
+
+
 def ndim_mismatch_sweep(r, epg):
     """deterministic sweep: every differentiable operator, every ordered pair of its parameters given as arrays
     with different numbers of axes ((n,) and (n,m)), all derivatives on: vectorised vs scalar at every index"""
